@@ -32,6 +32,9 @@ type RecStore struct {
 	Delay func()
 	// Record turns batch recording on (off by default: it costs memory).
 	Record bool
+	// OnBatch, when set, is called (under the recorder's lock) with the index of
+	// every batch appended to the log.
+	OnBatch func(idx int)
 }
 
 // NewRecStore wraps inner.
@@ -57,6 +60,9 @@ func (s *RecStore) PutChangeSet(p, st map[string][]byte) error {
 		}
 		s.mu.Lock()
 		s.log = append(s.log, b)
+		if s.OnBatch != nil {
+			s.OnBatch(len(s.log) - 1)
+		}
 		s.mu.Unlock()
 	}
 	if s.Delay != nil {
@@ -87,6 +93,9 @@ func (s *RecStore) SeekGC(rng storage.SeekRange, keep func(k, v []byte) (bool, b
 	if len(b.Puts) > 0 {
 		s.mu.Lock()
 		s.log = append(s.log, b)
+		if s.OnBatch != nil {
+			s.OnBatch(len(s.log) - 1)
+		}
 		s.mu.Unlock()
 	}
 	return err
